@@ -4,7 +4,9 @@ package main
 
 import (
 	"context"
+	"errors"
 	"fmt"
+	"github.com/docker/docker/errdefs"
 	"sort"
 	"strings"
 	"time"
@@ -19,7 +21,7 @@ import (
 )
 
 type c14Fault struct {
-	Kind string `json:"kind"` // none, list, open, open2, readerr, truncate, systemerr, badts, closeerr
+	Kind string `json:"kind"` // none, list, open, open-notfound, open2, readerr, truncate, systemerr, badts, closeerr
 	Ctr  int    `json:"ctr,omitempty"`
 	Ctr2 int    `json:"ctr2,omitempty"`
 	At   int    `json:"at,omitempty"` // byte offset or frame index
@@ -99,6 +101,9 @@ func c14Containers(sh c14Shape, f c14Fault) (ctrs []fakedocker.Container, frameS
 		c := fakedocker.Container{ID: fmt.Sprintf("id%d", i), Name: fmt.Sprintf("/n%d", i), Image: "img", State: "running", Log: log}
 		if (f.Kind == "open" && f.Ctr == i) || (f.Kind == "open2" && (f.Ctr == i || f.Ctr2 == i)) {
 			c.OpenErr = fakedocker.ErrInjected
+		}
+		if f.Kind == "open-notfound" && f.Ctr == i {
+			c.OpenErr = errdefs.NotFound(errors.New("No such container: " + c.ID)) // what dockerd answers for a container removed meanwhile
 		}
 		if f.Kind == "closeerr" && f.Ctr == i {
 			c.CloseErr = fakedocker.ErrInjected
@@ -279,7 +284,7 @@ func c14Oracle(in c14Input, o c14Obs) string {
 		if o.Err != "" {
 			return "fault-free evaluation failed: " + o.Err
 		}
-	case "list", "open", "open2":
+	case "list", "open", "open2", "open-notfound":
 		mustFail = true
 	case "readerr":
 		mustFail = f.At < base.Read[f.Ctr]
@@ -372,6 +377,7 @@ func c14Run(r *vkit.Run) {
 		emit(c14Input{Shape: sh.name, Fault: c14Fault{Kind: "list"}, Mode: "bound", Bound: 1})
 		for i := 0; i < sh.n; i++ {
 			emit(c14Input{Shape: sh.name, Fault: c14Fault{Kind: "open", Ctr: i}, Mode: openMode, Bound: openBound})
+			emit(c14Input{Shape: sh.name, Fault: c14Fault{Kind: "open-notfound", Ctr: i}, Mode: "bound", Bound: 1})
 			for j := i + 1; j < sh.n; j++ {
 				emit(c14Input{Shape: sh.name, Fault: c14Fault{Kind: "open2", Ctr: i, Ctr2: j}, Mode: openMode, Bound: openBound})
 			}
@@ -412,7 +418,7 @@ func c14Run(r *vkit.Run) {
 			}
 		}
 	}
-	r.Note("bounds", fmt.Sprintf("%d query shapes (log over 1/2/3 containers, with limit, range and instant count_over_time, arithmetic and set operations between two storage selections); single faults: a reader whose Close fails, ContainerList error, ContainerLogs error of each container and of each pair (schedules: %s), read error at every byte offset and truncation at every byte offset of every stream, daemon-error frame and unparsable timestamp at every frame (all N! completion orders; read errors also preemption bound 1 on a 1/9 lattice)", len(c14Shapes), map[string]string{"bound": "preemption bound 2", "all": "every interleaving"}[openMode]))
+	r.Note("bounds", fmt.Sprintf("%d query shapes (log over 1/2/3 containers, with limit, range and instant count_over_time, arithmetic and set operations between two storage selections); single faults: a reader whose Close fails, ContainerList error, ContainerLogs error of each container (a plain error and dockerd's not-found error) and of each pair (schedules: %s), read error at every byte offset and truncation at every byte offset of every stream, daemon-error frame and unparsable timestamp at every frame (all N! completion orders; read errors also preemption bound 1 on a 1/9 lattice)", len(c14Shapes), map[string]string{"bound": "preemption bound 2", "all": "every interleaving"}[openMode]))
 }
 
 func nilIf(cond bool, p []int) []int {
